@@ -8,6 +8,24 @@ GI = M + ".TemplateDict.__getitem__"
 SES = 'DocumentTemplate.DT_Util.sequence_ensure_subscription'
 
 
+def _cache_holds(E, cache, sequence):
+    from pyvc.values import VC, VRef, HDict
+    if isinstance(cache, VC) and cache.v is None:
+        return VC(True)
+    if isinstance(cache, VRef) and isinstance(E.heap[cache.addr], HDict):
+        ent = E.heap[cache.addr].entries
+        return VC(len(ent) == 1 and ent[0][1] is sequence)
+    return VC(False)
+
+
+from pyvc import spec as _spec  # noqa
+_spec.register('cache_holds', _cache_holds)
+
+CACHE_CUT = dict(name="cache", before="if isinstance(sequence, str):", keep_trace=True,
+                 assume={'C12.named_sequence_cached_as_wrapped':
+                         "cache_holds(cache, sequence)"})
+
+
 def _inself():
     return Obj(IN, lazy=True, fields={'args': DictS(types={'prefix': 'str'})})
 
@@ -38,16 +56,17 @@ contract(IN + ".renderwob",
          params=dict(self=_inself(), md=TD()),
          ensures=dict(SN), exc_ensures=dict(SN),
          uses=[RB, GI, SES, IN + ".sort_sequence", IN + ".reverse_sequence", M + ".join_unicode"],
-         cuts=[dict(before="prefix = self.args.get('prefix')",
+         cuts=[CACHE_CUT,
+               dict(name="sorted", before="prefix = self.args.get('prefix')",
                     live=['self', 'md', 'sequence', 'cache', 'section', 'mapping', 'no_push_item'],
                     abstract={'sequence': Seq(kind='any')},
                     havoc_fields=[('self', 'sort', None)],
                     forget=['self.sort', 'self.reverse', 'self.expr', 'self.elses']),
-               dict(before="if guarded_getitem is not None:", live=BODY_LIVE,
+               dict(name="fetch", before="if guarded_getitem is not None:", live=BODY_LIVE,
                     abstract={'index': Int()}, assume={'idx': "index >= 0"}, havoc_heap=["kw"]),
-               dict(before="pkw['sequence-index'] = index", live=BODY_LIVE,
+               dict(name="item", before="pkw['sequence-index'] = index", live=BODY_LIVE,
                     abstract={'client': Opaque(), 'index': Int()}, havoc_heap=["kw"], forget=['guarded_getitem']),
-               dict(before="if no_push_item:", live=BODY_LIVE + ['t'],
+               dict(name="push", before="if no_push_item:", live=BODY_LIVE + ['t'],
                     abstract={'client': Opaque(), 't': Opaque()}, havoc_heap=["kw"]),
                ],
          invariants={2: WOB_LOOP})
@@ -68,38 +87,44 @@ contract('DocumentTemplate.DT_In.int_param',
          ensures=dict(SN), exc_ensures=dict(SN), raises_any=True, returns=Opaque(), uses=[GI])
 
 OPT = 'DocumentTemplate.DT_InSV.opt'
+PB_ = "pulled(sequence) <= imax(pulled_initial(sequence), end + sz + orphan)"
+
 WB_LOOP = dict(
     header="for index in range(first, end)",
     ghost={'x0': "stack_extra(md)"}, ghost_types={'x0': 'same'},
-    inv=dict(stack="stack_extra(md) == x0", level="level_of(md) == old(level_of(md))"),
+    inv={'stack': "stack_extra(md) == x0", 'level': "level_of(md) == old(level_of(md))", 'C12.pull_bound': PB_},
     havoc_heap=["kw", "result"], havoc_ghost=["sequence"],
     types={'client': 'opaque', 't': 'opaque', 'pushed': 'int', 'vv': 'opaque', 'pstart': 'int', 'pend': 'int',
            'psize': 'int'})
 
 contract(IN + ".renderwb",
          params=dict(self=_inself(), md=TD()),
-         ensures=dict(SN), exc_ensures=dict(SN),
+         ensures=dict(SN), exc_ensures=dict(SN), lazy_len=True,
          uses=[RB, GI, SES, IN + ".sort_sequence", IN + ".reverse_sequence", M + ".join_unicode",
                'DocumentTemplate.DT_In.int_param', OPT],
-         cuts=[dict(before="next = previous = 0",
+         cuts=[CACHE_CUT,
+               dict(name="sorted", before="next = previous = 0",
                     abstract={'sequence': Seq(kind='any', lazy=True)},
                     assume={'nonempty': "len_of(sequence) >= 1"},
                     havoc_fields=[('self', 'sort', None)],
                     forget=['self.sort', 'self.reverse', 'self.expr', 'self.elses']),
-               dict(before="start, end, sz = opt(start, end, size, orphan, sequence)",
+               dict(name="params", before="start, end, sz = opt(start, end, size, orphan, sequence)",
                     abstract={'start': Int(assumed=True), 'end': Int(assumed=True), 'size': Int(assumed=True),
                               'overlap': Int(assumed=True), 'orphan': Int(assumed=True)},
-                    suppose={'orphan_nonneg': "orphan >= 0"}, assume={'nonempty': "len_of(sequence) >= 1"}),
-               dict(before="last = end - 1",
+                    suppose={'orphan_nonneg': "orphan >= 0", 'overlap_nonneg': "overlap >= 0"},
+                    assume={'nonempty': "len_of(sequence) >= 1"}),
+               dict(name="window", before="last = end - 1",
                     abstract={'start': Int(), 'end': Int(), 'sz': Int()},
                     # C11 (from the property): 1 <= start <= end <= length
                     assume={'C11.start_lo': "1 <= start", 'C11.ordered': "start <= end",
-                            'C11.end_in_sequence': "end <= len_of(sequence)", 'size_pos': "sz >= 1"},
+                            'C11.end_in_sequence': "end <= len_of(sequence)", 'size_pos': "sz >= 1",
+                            'C12.pull_bound': PB_},
+                    suppose={'overlap_lt_size': "overlap < sz"},
                     havoc_ghost=["sequence"]),
-               dict(before="if index == last: pkw['sequence-end'] = 1",
+               dict(name="links", before="if index == last: pkw['sequence-end'] = 1",
                     abstract={'index': Int()}, live=["kw"], havoc_heap=["kw"], drop=['pstart', 'pend', 'psize'],
                     havoc_ghost=["sequence"], forget_iteration=True,
-                    assume={'in_window': "first <= index and index < end",
+                    assume={'in_window': "first <= index and index < end", 'C12.pull_bound': PB_,
                             # C11: batch links announced on the first / last displayed element
                             'C11.previous_sequence_flag': "kw['previous-sequence'] == (1 if (index == first and first > 0) else 0)",
                             'C11.next_sequence_flag': "kw['next-sequence'] == (1 if (index == last and end < len_of(sequence)) else 0)",
@@ -110,15 +135,15 @@ contract(IN + ".renderwb",
                                 "implies(index == last and end < len_of(sequence) and overlap <= end, "
                                 "kw['next-sequence-start-index'] + 1 == imin(end + 1 - overlap, len_of(sequence)))",
                             }),
-               dict(before="if guarded_getitem is not None:",
+               dict(name="fetch", before="if guarded_getitem is not None:",
                     abstract={'index': Int()}, live=["kw"], havoc_heap=["kw"], havoc_ghost=["sequence"], forget_iteration=True,
                     assume={'C11.displayed_index_in_sequence': "0 <= index and index < len_of(sequence)",
-                            'in_window': "first <= index and index < end"}),
-               dict(before="pkw['sequence-index'] = index",
+                            'in_window': "first <= index and index < end", 'C12.pull_bound': PB_}),
+               dict(name="item", before="pkw['sequence-index'] = index",
                     abstract={'client': Opaque(), 'index': Int()}, live=["kw"], havoc_heap=["kw"],
-                    havoc_ghost=["sequence"], forget_iteration=True),
-               dict(before="if no_push_item:",
+                    havoc_ghost=["sequence"], forget_iteration=True, assume={'C12.pull_bound': PB_}),
+               dict(name="push", before="if no_push_item:",
                     abstract={'client': Opaque(), 't': Opaque()}, live=["kw"], havoc_heap=["kw"],
-                    havoc_ghost=["sequence"], forget_iteration=True),
+                    havoc_ghost=["sequence"], forget_iteration=True, assume={'C12.pull_bound': PB_}),
                ],
          invariants={2: WB_LOOP})
